@@ -781,7 +781,8 @@ def adapt_typehints(
             with suppress(*json_or_yaml_loader_exceptions):
                 val = json_or_yaml_load(val)
         if typehint is float and isinstance(val, int) and not isinstance(val, bool):
-            val = float(val)
+            with suppress(OverflowError):
+                val = float(val)
         if not isinstance(val, typehint) or (typehint in (int, float) and isinstance(val, bool)):
             raise_unexpected_value(f"Expected a {typehint}", val)
 
